@@ -48,6 +48,11 @@ def _events(w: dict, margin: int) -> list[dict]:
         if kind == "face":
             for n in range(-1, size + 1):
                 ev.append({"a": "WindDefault", "n": n})
+        # the older (deprecated, still public) name of wind_index, and what the convention says about a variable on this grid
+        for n in (-1, 0, size // 2, size - 1, size):
+            ev.append({"a": "Wind", "kind": kind, "n": n, "api": "unravel_index"})
+        ev.append({"a": "KindOf", "kind": kind, "extra": True})
+        ev.append({"a": "KindOf", "kind": kind, "extra": False})
         import itertools
         for idx in itertools.product(*[range(-margin, s + margin) for s in shape]):
             nat = list(idx) if w["conv"] in ("cf1d", "cf2d", "shoc_simple") else [kind] + list(idx)
@@ -135,8 +140,23 @@ def execute(case: dict) -> dict:
             e["obs"] = {kind_name(k): as_int(v) for k, v in conv.grid_size.items()}
         elif a == "Kinds":
             e["obs"] = sorted(kind_name(k) for k in conv.grid_kinds)
+        elif a == "Wind" and e.get("api") == "unravel_index":
+            e["obs"] = outcome(lambda: native_index(w["conv"], conv.unravel_index(e["n"], grid_kind=kind_enum(e["kind"]))))
         elif a == "Wind":
             e["obs"] = outcome(lambda: native_index(w["conv"], conv.wind_index(e["n"], grid_kind=kind_enum(e["kind"]))))
+        elif a == "KindOf":
+            import numpy
+            import xarray
+            dims = list(W.kind_dims(w, e["kind"]))
+            shape = list(W.kind_shape(w, e["kind"]))
+            if e["extra"]:
+                dims = ["extra_t"] + dims[::-1]; shape = [2] + shape[::-1]
+            da = xarray.DataArray(numpy.zeros(shape), dims=dims)
+
+            def kindof():
+                k, size = conv.get_grid_kind_and_size(da)
+                return {"kind": kind_name(k), "size": as_int(size), "kind2": kind_name(conv.get_grid_kind(da))}
+            e["obs"] = outcome(kindof)
         elif a == "WindDefault":
             e["obs"] = outcome(lambda: native_index(w["conv"], conv.wind_index(e["n"])))
         elif a == "Ravel":
